@@ -180,7 +180,7 @@ def run(ctx):
     # pest's validator counts PEEK / POP / DROP / slices as "progressing or failing": on an empty stack they must fail, or a
     # repetition over them never ends (seed C11-5) — C06's instances
     from . import c06
-    ctx.adopt(c06.run, {"R06-OPS": "R11-STACKOPS"})
+    ctx.adopt(c06.run, {"R06-OPS": "R11-STACKOPS", "R06-IDX": "R11-STACKIDX"})
 
     # progress: a terminal that succeeds on a non-empty match moves the real cursor, else `(.. ~ ANY)*`-style loops never end
     from .. import prims
